@@ -44,7 +44,7 @@ var c14DevInv = [][2]string{
 	{"ClosureNoEnv", "RoundTrip"}, {"FuncOwnName", "RoundTrip"}, {"LossyFuncPrint", "RoundTrip"}, {"ExtUsage", "RoundTrip"},
 	{"QuoteMultiLine", "OneLinePerBinding"}, {"ScannerLimit", "RoundTrip"}, {"NamedFuncNoLimit", "SkippedNotTruncated"},
 	{"Unsorted", "Sorted"}, {"Truncate", "SkippedNotTruncated"}, {"RawStrings", "OneLinePerBinding"},
-	{"ScannerByLimit", "RoundTrip"},
+	{"ScannerByLimit", "RoundTrip"}, {"StaleText", "RoundTrip"},
 }
 
 func c14Cfg(dev []string, maxLine int, scopes []string, limits []int, emit bool, invs []string, trace bool) string {
@@ -69,6 +69,9 @@ func c14Cfg(dev []string, maxLine int, scopes []string, limits []int, emit bool,
 		return s + "INIT TraceInit\nNEXT TraceNext\nPOSTCONDITION TraceAccepted\n"
 	}
 	s += "INIT Init\nNEXT Next\n"
+	if emit {
+		s += "CONSTRAINT GenStop\n" // GEN needs the emitted cases only (one per final save); what follows a save is model-checked in c14ModelCheck
+	}
 	if len(invs) > 0 {
 		s += "INVARIANTS " + strings.Join(invs, " ") + "\n"
 	}
@@ -90,8 +93,14 @@ type c14Case struct {
 	ResaveA []c14Line         `json:"resaveA"`
 	ResaveW []c14Line         `json:"resaveW"`
 	MV      map[string]bool   `json:"mv"` // the model's own verdict under the code's rules
+	// a session history (scope "hist"): the bindings it starts from, the steps run before the final save; Env is then
+	// the model's idea of what the session holds at the end
+	Env0Raw []json.RawMessage `json:"env0"`
+	Steps   []c14Step         `json:"steps"`
 
 	Env    []c14Bind `json:"-"`
+	Env0   []c14Bind `json:"-"` // what the api names are bound to (= Env when there are no steps)
+	Extra  []c14Val  `json:"-"` // further injected values the steps of a seeded history refer to (c14val(len(api)+i))
 	Random bool      `json:"-"` // built by the harness from emitted values: no model prediction attached
 }
 
@@ -118,9 +127,13 @@ func (l *c14Line) UnmarshalJSON(b []byte) error {
 func (cs *c14Case) key() string { return fmt.Sprintf("%s|%d", cs.ID, cs.Lim) }
 
 func (cs *c14Case) job() c14Job {
-	j := c14Job{ID: cs.key(), Src: cs.Src, Lim: cs.Lim}
+	j := c14Job{ID: cs.key(), Src: cs.Src, Lim: cs.Lim, Steps: cs.Steps, Extra: cs.Extra}
+	start := cs.Env
+	if len(cs.Steps) > 0 {
+		start = cs.Env0
+	}
 	for _, n := range cs.Api {
-		for _, b := range cs.Env {
+		for _, b := range start {
 			if b.Name == n {
 				j.Api = append(j.Api, c14ApiBind{Name: n, Val: b.Val})
 			}
@@ -150,6 +163,9 @@ func c14ReadCases(path string) ([]*c14Case, error) {
 			return err
 		}
 		cs.Env = env
+		if cs.Env0, err = c14Pairs(cs.Env0Raw); err != nil {
+			return err
+		}
 		res = append(res, cs)
 		return nil
 	})
@@ -348,6 +364,7 @@ type c14TRPath struct {
 }
 
 type c14TR struct {
+	K        string    `json:"k"` // case (a saved environment, everything judged) | sess (a multi-session history: b against a.vals)
 	ID       string    `json:"id"`
 	Lim      int       `json:"lim"`
 	N        int       `json:"n"`
@@ -380,7 +397,7 @@ func c14CallObs(c c14Call) []any { return []any{c.Out, c.Val, c.Err, c.Timeout} 
 // c14Trace builds the record SaveLoad_Trace.tla judges from what the two children observed.
 func c14Trace(run *c14Run) c14TR {
 	sr, lr := &run.Save, &run.Load
-	t := c14TR{ID: sr.ID, Lim: sr.Lim, N: sr.N, NU: sr.NU}
+	t := c14TR{K: "case", ID: sr.ID, Lim: sr.Lim, N: sr.N, NU: sr.NU}
 	lines := c14SplitLines(sr.File)
 	linesU := lines
 	if sr.Lim > 0 {
@@ -551,6 +568,15 @@ func c14Norm(t c14TR) (c14TR, error) {
 
 func c14Judge(t c14TR) []string {
 	fails := []string{}
+	if t.K == "sess" {
+		for i, b := range t.B {
+			v := t.A.Vals[i]
+			if !(v[1].(bool) && c14TSame(c14AsJ(b[2]), c14AsJ(v[2]))) {
+				fails = append(fails, "rt:A:"+b[0].(string))
+			}
+		}
+		return fails
+	}
 	ok := t.NU == len(t.LinesU) && t.N == len(t.Lines) && len(t.Names) == len(t.LinesU)
 	for i := range t.Names {
 		if i < len(t.LinesU) && c14LineName(unlatin1(t.LinesU[i])) != t.Names[i] {
@@ -1217,6 +1243,8 @@ func c14ProbeDeviations(root string) (dev []string, notes map[string]string, err
 		{"QuoteMultiLine", "probe:quote", "x=quote(if a {b} else {c}); z=1", 0},
 		{"ScannerLimit", "probe:scanner", `a="` + long + `"; b=2`, 0},
 		{"NamedFuncNoLimit", "probe:limit", "func f(a,b){a+b+a+b}", 5},
+		// not a rule of the pinned code: the shape of a seeded change (a map keeps the text it was printed as)
+		{"StaleText", "probe:stale", `m={"a":1,"b":2,"c":3,"d":4,"e":5}; println(m); m.a=7; z=1`, 0},
 	}
 	var jobs []c14Job
 	for _, p := range probes {
@@ -1306,7 +1334,22 @@ func c14Par() int {
 func c14ModelCheck(c *Ctx) error {
 	allInv := []string{"OneLinePerBinding", "Sorted", "RoundTrip", "SaveIdempotent", "SkippedNotTruncated"}
 	allScopes := []string{"mc", "int", "float", "byte", "str", "scalar", "arr", "map", "pair", "name", "long", "limit", "func", "boundary"}
+	hscope := "histmc" // quick: one container of each kind; thorough: every history
+	if c.Thorough() {
+		hscope = "histall"
+	}
+	hDone := make(chan error, 1)
+	go func() { // the session histories (every step an action), beside the universe
+		r, err := c.TLC(TLCOpt{Spec: "SaveLoad", Cfg: c14Cfg(nil, c14ScanLimit, []string{hscope}, []int{0}, false, allInv, false), Workers: c.Pick(2, 6)})
+		if err == nil {
+			c.Note("MC repaired design (Dev = {}) over the session histories (%s): %d states, %d transitions, all of %v hold", hscope, r.Distinct, r.Generated, allInv)
+		}
+		hDone <- err
+	}()
 	r, err := c.TLC(TLCOpt{Spec: "SaveLoad", Cfg: c14Cfg(nil, c14ScanLimit, allScopes, []int{0, 12, 40}, false, allInv, false), Workers: 6})
+	if herr := <-hDone; err == nil {
+		err = herr
+	}
 	if err != nil {
 		return err
 	}
@@ -1318,14 +1361,18 @@ func c14ModelCheck(c *Ctx) error {
 	}
 	results := make([]devRes, len(c14DevInv))
 	var wg sync.WaitGroup
-	sem := make(chan struct{}, 5)
+	sem := make(chan struct{}, 6)
 	for i, di := range c14DevInv {
 		wg.Add(1)
 		go func(i int, dev, inv string) {
 			defer wg.Done()
 			sem <- struct{}{}
 			defer func() { <-sem }()
-			r, err := c.TLC(TLCOpt{Spec: "SaveLoad", Cfg: c14Cfg([]string{dev}, 40, []string{"mc", "boundary"}, []int{0, 12, 44}, false, []string{inv}, false), Workers: 2, AllowError: true, Heap: "2g"})
+			scopes, limits := []string{"mc", "boundary"}, []int{0, 12, 44}
+			if dev == "StaleText" {
+				scopes, limits = []string{"histmc"}, []int{0} // the rule is about what a session did before it saves: the histories
+			}
+			r, err := c.TLC(TLCOpt{Spec: "SaveLoad", Cfg: c14Cfg([]string{dev}, 40, scopes, limits, false, []string{inv}, false), Workers: 1, AllowError: true, Heap: "2g"})
 			results[i] = devRes{dev: dev, want: inv, err: err}
 			if err == nil {
 				results[i].got = r.InvViolated
@@ -1351,6 +1398,11 @@ func checkC14(c *Ctx) {
 	c.Assume("the saving and the loading sessions run in separate child processes that call extensions.Init(&Config{HasLoad,HasSave}) themselves; function equivalence is sampled on 12 argument kinds per parameter position pattern, not proved")
 	c.Assume("the reader of printed forms in SaveLoad.tla (ParseVal) covers the literal grammar that Inspect produces; function bodies are opaque code identities in the model")
 	par := c14Par()
+	// About twenty short TLC runs share the machine: the optimising JIT tier costs more CPU than it saves on runs of a
+	// few seconds (measured: 240 s -> 120 s CPU, 37 s -> 27 s wall for the quick tier). The JVMs inherit the variable.
+	if !c.Thorough() && !strings.Contains(os.Getenv("JAVA_TOOL_OPTIONS"), "TieredStopAtLevel") {
+		_ = os.Setenv("JAVA_TOOL_OPTIONS", strings.TrimSpace(os.Getenv("JAVA_TOOL_OPTIONS")+" -XX:TieredStopAtLevel=1"))
+	}
 
 	// 1. MC (runs beside the conformance part, joined before the verdicts): the repaired design satisfies every
 	//    property, and each actual rule of the code yields its design-level counterexample
@@ -1361,7 +1413,9 @@ func checkC14(c *Ctx) {
 
 	// 2. pinned reproducers: which of the named deviations does the tree under test still have? (they are run on
 	//    every check; the model that predicts the GEN cases is SaveLoad with exactly these deviations on)
+	tPhase := time.Now()
 	codeDev, probeNotes, err := c14ProbeDeviations(filepath.Join(c.Scratch(), "c14probe"))
+	c.Cov("wall_probes_s", time.Since(tPhase).Seconds())
 	if err != nil {
 		c.Infra(err)
 		return
@@ -1370,12 +1424,28 @@ func checkC14(c *Ctx) {
 	c.Cov("pinned_reproducers", probeNotes)
 
 	// 2b. histories of several sessions in one directory (auto-load, inputs, auto-save): the last state is what loads back
-	c14RunSessions(c)
+	sessDone := make(chan *c14SessRun, 1)
+	go func() {
+		t0 := time.Now()
+		sr := c14RunSessions(c)
+		c.Cov("wall_sessions_s", time.Since(t0).Seconds())
+		sessDone <- sr
+	}()
+	waitSess := sync.OnceValue(func() *c14SessRun { return <-sessDone })
+	defer func() { _ = waitSess() }()
 
 	// 3. GEN: the universe with the model's prediction under the code's actual rules
 	scopes := []string{"int", "float", "byte", "str", "scalar", "arr", "map", "pair", "name", "long", "func"}
 	inv := []string{}
-	if len(codeDev) == len(c14CodeDev) {
+	has := map[string]bool{}
+	for _, d := range codeDev {
+		has[d] = true
+	}
+	all := true
+	for _, d := range c14CodeDev {
+		all = all && has[d]
+	}
+	if all {
 		inv = []string{"PrintOK"} // with every rule of the pinned code on, the model's printed form is GrolValues!Inspect
 	}
 	limits := []int{1, 5, 12, 17, 40}
@@ -1393,20 +1463,28 @@ func checkC14(c *Ctx) {
 		err   error
 	}
 	genRun := func(out *genRes, scopes []string, limits []int, inv []string) {
-		r, err := c.TLC(TLCOpt{Spec: "SaveLoad", Cfg: c14Cfg(codeDev, c14ScanLimit, scopes, limits, true, inv, false), Workers: 4})
+		r, err := c.TLC(TLCOpt{Spec: "SaveLoad", Cfg: c14Cfg(codeDev, c14ScanLimit, scopes, limits, true, inv, false), Workers: 4 + len(scopes)/8})
 		if err == nil {
 			out.cases, err = c14ReadCases(r.Emitted)
 		}
 		out.err = err
 	}
-	var gU, gL, gB genRes
+	// session histories (SaveLoad!HistCases): print / save, change an element, print / save again, next session ..
+	hscope := "hist"
+	if c.Thorough() {
+		hscope = "histall"
+	}
+	var gU, gL, gB, gH genRes
 	var gwg sync.WaitGroup
-	gwg.Add(3)
+	gwg.Add(4)
 	go func() { defer gwg.Done(); genRun(&gU, scopes, []int{0}, inv) }()
 	go func() { defer gwg.Done(); genRun(&gL, []string{"limit"}, limits, nil) }()
 	go func() { defer gwg.Done(); genRun(&gB, []string{"boundary"}, blimits, nil) }()
+	go func() { defer gwg.Done(); genRun(&gH, []string{hscope}, []int{0}, nil) }()
+	tPhase = time.Now()
 	gwg.Wait()
-	for _, g := range []*genRes{&gU, &gL, &gB} {
+	c.Cov("wall_gen_tlc_s", time.Since(tPhase).Seconds())
+	for _, g := range []*genRes{&gU, &gL, &gB, &gH} {
 		if g.err != nil {
 			c.Infra(g.err)
 			return
@@ -1417,7 +1495,12 @@ func checkC14(c *Ctx) {
 		return
 	}
 	c.Cov("limit_boundary_cases", len(gB.cases))
-	cases := append(append(gU.cases, gL.cases...), gB.cases...)
+	if len(gH.cases) < 200 {
+		c.Infra(fmt.Errorf("SaveLoad GEN emitted only %d session histories", len(gH.cases)))
+		return
+	}
+	c.Cov("session_history_cases", len(gH.cases))
+	cases := append(append(append(gU.cases, gL.cases...), gB.cases...), gH.cases...)
 	if len(cases) < 700 {
 		c.Infra(fmt.Errorf("SaveLoad GEN emitted only %d cases", len(cases)))
 		return
@@ -1443,7 +1526,7 @@ func checkC14(c *Ctx) {
 		byKey[cs.key()] = cs
 		jobs = append(jobs, cs.job())
 	}
-	tPhase := time.Now()
+	tPhase = time.Now()
 	runs, err := c14RunJobs(filepath.Join(c.Scratch(), "c14"), jobs, par)
 	c.Cov("wall_children_s", time.Since(tPhase).Seconds())
 	if err != nil {
@@ -1489,15 +1572,24 @@ func checkC14(c *Ctx) {
 	}
 	cases = kept
 	c.Cov("generated_function_cases_dropped", dropped)
+	tPhase = time.Now()
 	if err := waitMC(); err != nil {
 		c.Infra(err)
 		return
 	}
+	c.Cov("wall_waiting_for_mc_s", time.Since(tPhase).Seconds())
 	tPhase = time.Now()
-	verdicts, err := c14TLCVerdicts(c, recs, c.Pick(4, 10))
+	sess := waitSess()
+	if sess == nil {
+		return // c.Infra was called
+	}
+	verdicts, err := c14TLCVerdicts(c, append(append([]c14TR{}, recs...), sess.recs...), c.Pick(5, 10))
 	c.Cov("wall_trace_tlc_s", time.Since(tPhase).Seconds())
 	if err != nil {
 		c.Infra(err)
+		return
+	}
+	if !c14JudgeSessions(c, sess, verdicts) {
 		return
 	}
 	disagree, timeouts := 0, 0
@@ -1573,7 +1665,9 @@ func checkC14(c *Ctx) {
 	c.Cov("value_universe", fmt.Sprintf("%d TLC-emitted cases: ints, floats, all 256 single bytes, strings, arrays, maps, 16x16 pairs, binding names, long lines, %d function/extension/quote cases, limit sweeps", nGen, c14CountPrefix(cases, "fn:")))
 
 	// 4. binding self-test: corrupt one recorded field of a passing case; the trace spec must reject exactly that case
-	if msg := c14SelfTest(c, recs, verdicts); msg != "" {
+	tPhase = time.Now()
+	defer func() { c.Cov("wall_selftest_s", time.Since(tPhase).Seconds()) }()
+	if msg := c14SelfTest(c, append(append([]c14TR{}, recs...), sess.recs...), verdicts); msg != "" {
 		c.Infra(fmt.Errorf("vacuous binding: %s", msg))
 		return
 	}
@@ -1608,7 +1702,8 @@ func c14Describe(run *c14Run, t c14TR, fail string) string {
 				if !p.Vals[i][1].(bool) {
 					return fmt.Sprintf("%s = %.120s is not bound after %s", parts[2], jstr(b[2]), how)
 				}
-				return fmt.Sprintf("%s = %.120s reloads by %s as %.120s", parts[2], jstr(b[2]), how, jstr(p.Vals[i][2]))
+				return fmt.Sprintf("%s = %.120s reloads by %s as %.120s (first difference: %s)", parts[2], jstr(b[2]), how, jstr(p.Vals[i][2]),
+					c14FirstDiff(parts[2], c14AsJ(b[2]), c14AsJ(p.Vals[i][2])))
 			}
 		}
 	case "call":
@@ -1633,6 +1728,42 @@ func c14Describe(run *c14Run, t c14TR, fail string) string {
 		return "repl.AutoSave wrote different bytes than State.SaveGlobals: " + run.Save.AutoErr
 	}
 	return fail
+}
+
+// c14FirstDiff names the first place where two observed values differ (for the report).
+func c14FirstDiff(path string, a, b J) string {
+	if a["t"] == b["t"] {
+		switch a["t"] {
+		case "arr":
+			x, y := c14List(a["e"]), c14List(b["e"])
+			if len(x) != len(y) {
+				return fmt.Sprintf("%s has %d elements in the session, %d after reload", path, len(x), len(y))
+			}
+			for i := range x {
+				if !c14TSame(c14AsJ(x[i]), c14AsJ(y[i])) {
+					return c14FirstDiff(fmt.Sprintf("%s[%d]", path, i), c14AsJ(x[i]), c14AsJ(y[i]))
+				}
+			}
+		case "map":
+			x, y := c14List(a["p"]), c14List(b["p"])
+			if len(x) != len(y) {
+				return fmt.Sprintf("%s has %d keys in the session, %d after reload", path, len(x), len(y))
+			}
+			for i := range x {
+				p, q := c14List(x[i]), c14List(y[i])
+				if len(p) != 2 || len(q) != 2 {
+					break
+				}
+				if !c14TSame(c14AsJ(p[0]), c14AsJ(q[0])) {
+					return fmt.Sprintf("key %d of %s is %.80s in the session, %.80s after reload", i, path, jstr(p[0]), jstr(q[0]))
+				}
+				if !c14TSame(c14AsJ(p[1]), c14AsJ(q[1])) {
+					return c14FirstDiff(fmt.Sprintf("%s[%.40s]", path, jstr(c14AsJ(p[0])["v"])), c14AsJ(p[1]), c14AsJ(q[1]))
+				}
+			}
+		}
+	}
+	return fmt.Sprintf("%s is %.80s in the session, %.80s after reload", path, jstr(a), jstr(b))
 }
 
 // c14RandomCases draws environments of 2..6 bindings from the emitted single values under random names.
@@ -1665,9 +1796,48 @@ func c14RandomCases(c *Ctx, gen []*c14Case, n int) []*c14Case {
 			cs.Env = append(cs.Env, c14Bind{Name: names[pi], Val: v})
 			cs.Api = append(cs.Api, names[pi])
 		}
+		if i%2 == 1 {
+			c14RandomHistory(c, cs, pool)
+		}
 		res = append(res, cs)
 	}
 	return res
+}
+
+// c14RandomHistory gives a seeded case a history (TV only): some way of producing a text from a binding (or from
+// all of them), then an element one of its containers already has gets another value of the pool - up to three rounds.
+// Keys and values are injected exactly (c14val), so every key type and bit pattern of the universe takes part.
+func c14RandomHistory(c *Ctx, cs *c14Case, pool []c14Val) {
+	cs.Env0 = cs.Env
+	inject := func(v c14Val) string {
+		cs.Extra = append(cs.Extra, v)
+		return fmt.Sprintf("c14val(%d)", len(cs.Api)+len(cs.Extra)-1)
+	}
+	shows := []string{"println(%s)", "print(%s)", "%s", "join([%s])", "save()", "@autosave", "str(%s)", "json(%s)", "len({%s:1})", "log(%s)"}
+	rounds := 1 + c.Rng.Intn(3)
+	for r := 0; r < rounds; r++ {
+		b := cs.Env[c.Rng.Intn(len(cs.Env))]
+		show := shows[c.Rng.Intn(len(shows))]
+		switch {
+		case show == "@autosave":
+			cs.Steps = append(cs.Steps, c14Step{Op: "autosave"})
+		case strings.Contains(show, "%s"):
+			cs.Steps = append(cs.Steps, c14Step{Op: "in", Src: fmt.Sprintf(show, b.Name), Echo: show == "%s"})
+		default:
+			cs.Steps = append(cs.Steps, c14Step{Op: "in", Src: show})
+		}
+		// the change: an element the container has; a scalar binding is bound again
+		nv := pool[c.Rng.Intn(len(pool))]
+		switch {
+		case b.Val.T == "arr" && len(b.Val.E) > 0:
+			cs.Steps = append(cs.Steps, c14Step{Op: "in", Src: fmt.Sprintf("%s[%d] = %s", b.Name, c.Rng.Intn(len(b.Val.E)), inject(nv))})
+		case b.Val.T == "map" && len(b.Val.P) > 0:
+			k := b.Val.P[c.Rng.Intn(len(b.Val.P))][0]
+			cs.Steps = append(cs.Steps, c14Step{Op: "in", Src: fmt.Sprintf("%s[%s] = %s", b.Name, inject(k), inject(nv))})
+		default:
+			cs.Steps = append(cs.Steps, c14Step{Op: "in", Src: fmt.Sprintf("%s = %s", b.Name, inject(nv))})
+		}
+	}
 }
 
 // c14GeneratedFuncCases wraps seeded programs of the typed generator (harness/gen.go) as the body of a saved
@@ -1698,10 +1868,16 @@ func c14SelfTest(c *Ctx, recs []c14TR, verdicts map[string][]string) string {
 		return nil
 	}
 	// (1) a reloaded integer is off by one
-	if t := pick(func(t c14TR) bool {
-		return len(t.B) > 0 && c14AsJ(t.B[len(t.B)-1][2])["t"] == "int" && strings.HasPrefix(t.ID, "int:")
-	}); t != nil {
-		i := len(t.B) - 1
+	idxOf := func(t c14TR, name string) int {
+		for i, b := range t.B {
+			if b[0].(string) == name && c14AsJ(b[2])["t"] == "int" {
+				return i
+			}
+		}
+		return -1
+	}
+	if t := pick(func(t c14TR) bool { return strings.HasPrefix(t.ID, "int:") && idxOf(t, "a") >= 0 }); t != nil {
+		i := idxOf(*t, "a")
 		t.A.Vals[i] = []any{t.A.Vals[i][0], true, J{"t": "int", "v": "12345"}}
 		t.ID += "#sab1"
 		probes, want = append(probes, *t), append(want, "rt:A:"+t.B[i][0].(string))
@@ -1745,13 +1921,34 @@ func c14SelfTest(c *Ctx, recs []c14TR, verdicts map[string][]string) string {
 		probes, want = append(probes, *t), append(want, "skipped")
 	}
 	// (6) the resave flag is flipped
-	if t := pick(func(t c14TR) bool { return t.W.Idem }); t != nil {
+	if t := pick(func(t c14TR) bool { return t.K == "case" && t.W.Idem }); t != nil {
 		t.W.Idem = false
 		t.ID += "#sab6"
 		probes, want = append(probes, *t), append(want, "idem:W")
 	}
-	if len(probes) < 5 {
-		return fmt.Sprintf("only %d sabotage probes could be built", len(probes))
+	// (7) a multi-session history: an element of a container of the fresh session is off
+	bigMap := func(v J) bool { return v["t"] == "map" && len(c14List(v["p"])) > 4 }
+	if t := pick(func(t c14TR) bool {
+		for _, b := range t.B {
+			if t.K == "sess" && bigMap(c14AsJ(b[2])) {
+				return true
+			}
+		}
+		return false
+	}); t != nil {
+		for i, b := range t.B {
+			if v := c14AsJ(b[2]); bigMap(v) {
+				ps := append([]any{}, c14List(v["p"])...)
+				ps[0] = []any{c14List(ps[0])[0], J{"t": "int", "v": "424242"}}
+				t.A.Vals[i] = []any{b[0], true, J{"t": "map", "p": ps}}
+				t.ID += "#sab7"
+				probes, want = append(probes, *t), append(want, "rt:A:"+b[0].(string))
+				break
+			}
+		}
+	}
+	if len(probes) < 7 {
+		return fmt.Sprintf("only %d sabotage probes could be built: %v", len(probes), want)
 	}
 	got, err := c14TLCVerdicts(c, probes, 1)
 	if err != nil {
